@@ -26,19 +26,17 @@ CHUNK = 4000            # steps per tour segment (bounds the history needed to r
 _line_re = re.compile(r'^<<"@@([SU])", "(.*)">>$')
 
 
-# Spelling probes: a few dedicated tour segments are walked with identifiers
-# spelled in another legal way.  A disagreement there is classified to the
-# finding's key only if the very same segment AGREES with the spec once the
-# spelling is the canonical one (see controls()).
-PROBES = {
-    "nethostbits": ("net", "cidr-host-bits-not-normalised"),
-    "maccolon8": ("set", "mac8-colon-form-stored-as-ipv6"),
-}
-PROBE_SEGMENTS = 4
+# Spellings.  Every tour segment and every trace history registers identifiers
+# under seeded legal spellings (letter case of ClientIDs/macs, host bits of
+# prefixes, the same identifier twice in one list, 8-byte macs with colons or
+# dashes); lookups use the canonical spelling.  The two defects these spellings
+# found (known_findings/C04.jsonl, fixed in /repo by 8d8600b and 17101da) used
+# to be confined to a few dedicated probe segments; since the fixes the
+# spellings are part of every segment.
 
 
 def classify(rec):
-    """Narrow keys of known findings (the spelling probes are classified by their control run)."""
+    """Narrow keys of known findings (none open)."""
     return None
 
 
@@ -180,7 +178,7 @@ def make_variants(seed, uni):
     def v(i):
         r = random.Random("%d/%s/%d" % (seed, uni, i))
         return {"maclen": [6, 8, 20][i % 3], "v6": i % 4 == 3 or uni == "zone", "seed": r.randrange(1 << 40),
-                "names": r.randrange(3), "global": r.randrange(16), "w": 4, "maccolon8": False, "nethostbits": False}
+                "names": r.randrange(3), "global": r.randrange(16), "w": 4, "maccolon8": r.randrange(2) == 1}
     return v
 
 
@@ -256,32 +254,16 @@ def reproduce(ctx, gmap, bads, tag):
     return recs
 
 
-def controls(ctx, gmap, recs, flags, tag):
-    """For spelling probes: the same segments with the canonical spelling.
-    Returns, per record, True if the control run agrees with the spec."""
-    cs = []
-    for i, (rec, flag) in enumerate(zip(recs, flags)):
-        c = dict(rec["_chunk_input"])
-        c["variant"] = dict(c["variant"])
-        c["variant"][flag] = False
-        c["id"] = i
-        cs.append(c)
-    if not cs:
-        return []
-    graphs = [gmap[u] for u in sorted({c["u"] for c in cs})]
-    again, _ = run_replay(ctx, graphs, cs, tag)
-    failed = {a["chunk"] for a in again}
-    return [i not in failed for i in range(len(cs))]
-
-
 # ------------------------------------------------------- settings decision table
 def settings_vectors(ctx):
     """specs/ClientSettings.tla: every (global value x own value x opt-out switch)
-    combination of the five settings, replayed into the real code.  Returns
+    combination of the five settings, times the state of the two
+    blocked-services schedules, replayed into the real code.  Returns
     (number of vectors, reproduced bad rows)."""
     r = ctx.tlc("ClientSettings", "ClientSettings.cfg", workers=2, timeout=300, heap="2g")
     vectors = r["vectors"]
-    if len(vectors) != 16 * 16 * 2 * 2 * 2 * 3:
+    # global vals x own vals x own x bs x global svcs x own svcs x global schedule x own schedule
+    if len(vectors) != 16 * 16 * 2 * 2 * 2 * 3 * 2 * 3:
         raise vlib.Inconclusive("ClientSettings printed %d vectors" % len(vectors))
 
     def go(vs, tag):
@@ -399,49 +381,6 @@ def run(ctx):
     if flaky:
         raise vlib.Inconclusive("%d disagreement(s) did not reproduce in isolation" % flaky)
 
-    # --- spelling probes (dedicated segments; see PROBES)
-    probe_chunks = []
-    for flag, (uni, _key) in sorted(PROBES.items()):
-        # segments that exercise the spelling: a refused Add/Update naming a
-        # prefix / a state or an operation that has a mac identifier
-        g = gmap[uni]
-        bits = sum(1 << i for i, d in enumerate(g.uni["ids"]) if d[0] == ("net" if flag == "nethostbits" else "mac"))
-        nn = len(g.uni["names"])
-
-        def relevant(c):
-            a = c["steps"]
-            if flag == "maccolon8" and any((k // 4) & bits for k in g.keys[c["start"]][:nn]):
-                return True
-            for j in range(0, len(a), 7):
-                if a[j] in (1, 2) and a[j + 3] & bits and (a[j + 5] == 1 or flag == "maccolon8"):
-                    return True
-            return False
-
-        cand = [c for c in chunks if c["u"] == uni and relevant(c)]
-        rng.shuffle(cand)
-        for c in cand[:PROBE_SEGMENTS]:
-            pc = dict(c)
-            pc["variant"] = dict(c["variant"])
-            pc["variant"][flag] = True
-            if flag == "maccolon8":
-                pc["variant"]["maclen"] = 8
-            pc["id"] = len(probe_chunks)
-            pc["_flag"] = flag
-            probe_chunks.append(pc)
-    pbads, psumm = run_replay(ctx, graphs, [{k: v for k, v in c.items() if k != "_flag"} for c in probe_chunks], "probe")
-    probe_steps = sum(nsteps(c) for c in probe_chunks)
-    for b in pbads:
-        b["_chunk"] = probe_chunks[b["chunk"]]
-        truncated += nsteps(b["_chunk"]) - (b["step"] + 1)
-    precs = reproduce(ctx, gmap, pbads, "probe_repro") if pbads else []
-    if any(r is None for r in precs):
-        raise vlib.Inconclusive("a spelling-probe disagreement did not reproduce in isolation")
-    pflags = [b["_chunk"]["_flag"] for b in pbads]
-    for b, rec, flag, agrees in zip(pbads, precs, pflags, controls(ctx, gmap, precs, pflags, "probe_control")):
-        rec.pop("_chunk_input")
-        key = PROBES[flag][1] if agrees else None
-        ctx.disagreement(key, rec, "%s (%s spelling): %s after %s" % (b["u"], flag, rec["what"], rec["concrete"]))
-
     # --- settings decision table (pure vectors)
     svecs, sbad = settings_vectors(ctx)
     for b in sbad[:8]:
@@ -476,8 +415,6 @@ def run(ctx):
         "traces_validated_against_impl": len(chunks) + ntraces,
         "tour_segments": len(chunks), "edges_replayed": summ["steps"],
         "settings_vectors_replayed": len(svecs), "settings_vectors_disagreeing": len(sbad),
-        "spelling_probe_segments": len(probe_chunks), "spelling_probe_steps": psumm["steps"],
-        "spelling_probe_disagreements": len(pbads),
         "edges_in_universe": sum(g.nedges for g in graphs) if not ctx.quick else None,
         "states_in_universes": {g.name: len(g.keys) for g in graphs},
         "edges_by_op_reply": {"%d/%d" % k: v for k, v in sorted(by_kind.items())},
